@@ -131,7 +131,8 @@ const O_NOCTTY_: u64 = libc::O_NOCTTY as u64;
 
 /// ops in which libpathrs is entitled to follow one trailing procfs link (R3)
 fn follow_allowed(op: &Op) -> bool {
-    matches!(op.name.as_str(), "reopen" | "open_subpath" | "mkdir_all" | "proc_open_follow") || (op.api == "c" && op.name == "proc_open" && op.flags.unwrap_or(0) & libc::O_NOFOLLOW as i64 == 0)
+    let nofollow = op.flags.unwrap_or(0) & libc::O_NOFOLLOW as i64 != 0;
+    matches!(op.name.as_str(), "reopen" | "open_subpath" | "mkdir_all") || (op.name == "proc_open_follow" && !nofollow) || (op.api == "c" && op.name == "proc_open" && op.flags.unwrap_or(0) & libc::O_NOFOLLOW as i64 == 0)
 }
 
 /// Returns all rule violations (key, description) of one execution.
@@ -304,6 +305,9 @@ pub fn handle_scenarios(thorough: bool) -> Vec<Scenario> {
             Op::new("proc_open").base("self").path("exe").flags(O_RDONLY).capi(),
             Op::new("proc_readlink").base("thread-self").path("cwd").capi(),
             Op::new("proc_open").procfs("new").base("root").path("sys/kernel/ostype").flags(O_RDONLY),
+            // the caller forbids following: even open_follow must not follow then
+            Op::new("proc_open_follow").procfs("new").base("self").path("cwd").flags(O_PATH | O_NOFOLLOW),
+            Op::new("proc_open_follow").procfs("new").base("thread-self").path("exe").flags(O_RDONLY | O_NOFOLLOW),
         ];
         if thorough {
             ops.push(Op::new("proc_open").procfs("new").base("root").path("nonexistent").flags(O_RDONLY));
@@ -525,6 +529,12 @@ pub fn run_item(prop: &str, tier: &str, idx: usize, only: Option<&Value>) -> MRe
         let cfg = ExecCfg { specs: vec![spec_for(&it, scen)], mode, root_out: out(ROOT_IN), horizon: 300_000, timeout_s: 60 };
         let eo = execute(&cfg, ch)?;
         let otext = outcome_text(&w, &eo, 0);
+        if std::env::var("VMC_DEBUG").is_ok() {
+            use std::io::Write;
+            if let Ok(mut f) = std::fs::OpenOptions::new().create(true).append(true).open(format!("/verif/.build/debug-{}.log", std::process::id())) {
+                let _ = writeln!(f, "{} choices={:?} events={} timeout={} horizon={} outcome={} first_events={:?}", scen.name, ch.choices(), eo.events.len(), eo.timeout, eo.horizon_hit, otext, eo.events.iter().take(4).map(|e| e.brief()).collect::<Vec<_>>());
+            }
+        }
         let devs: Vec<String> = eo.applied.iter().map(|(i, m)| format!("{}@{}", m, i)).chain(eo.faults.iter().map(|(i, f)| format!("{}@{}:{}", f, i, eo.events.get(*i).map(|e| e.sig()).unwrap_or_default()))).collect();
         if !confirm {
             res.evaluations += 1;
